@@ -158,3 +158,31 @@ Theorem C05_blocks_first_failing_test_decides : forall c ps G D vec, G <> [] -> 
   py_rf_write_blocks c ps G D vec = ((ValueError, first_true (gen_blocks_checks (p_next ps) (zlen vec) G D) 1), ps).
 Proof. exact blocks_first_failure_regen. Qed.
 Print Assumptions C05_blocks_first_failing_test_decides.
+
+(* ---- the C entry point regenerated.  Gen/WBlocksGen.v is the control skeleton of
+   digital_rf_write_blocks_hdf5 extracted from the current C source (translator T11): the rejections in
+   order with their return values, the per-file loop's condition, failure test and return values (and
+   the fact that the loop body contains nothing else).  The model's write_blocks / write_loop are proved
+   to be exactly that skeleton around write_samples_to_file. *)
+From DRF Require Import Gen.WBlocksGen Proofs.WBlocksGenProofs.
+
+Theorem C05_c_rejections_are_the_regenerated_ones : forall c st g0 d0 tl vec,
+  write_blocks c st ((g0, d0) :: tl) vec =
+  match first_rejection (gen_rejections (b2i (w_failed st)) false g0 (w_gi st) (b2i (c_cont c))
+                                        (Z.of_nat (length ((g0, d0) :: tl)))) with
+  | Some code => (code, st)
+  | None => write_loop (S (length vec)) c st 0 ((g0, d0) :: tl) vec
+  end.
+Proof. exact write_blocks_rejections_regen. Qed.
+Print Assumptions C05_c_rejections_are_the_regenerated_ones.
+
+Theorem C05_c_loop_is_the_regenerated_one : forall fuel c st sw bl vec,
+  write_loop (S fuel) c st sw bl vec =
+  if gen_loop_cond sw (Z.of_nat (length vec)) then
+    match write_samples_to_file c st sw bl vec with
+    | (Fail, st') => (gen_loop_failure_code, st')
+    | (Wrote k, st') => if gen_loop_failure k then (gen_loop_failure_code, st') else write_loop fuel c st' (sw + k) bl vec
+    end
+  else (gen_final_code, st).
+Proof. exact write_loop_regen. Qed.
+Print Assumptions C05_c_loop_is_the_regenerated_one.
